@@ -25,9 +25,22 @@ def run_impl(case):
             return ["EXC", f"alternatives are reported as {alts!r}"]
         idx = {a: i for i, a in enumerate(alts)}
         n, m = len(alts), len(dm.criteria)
-        acc = dm.dominance
+        acc0 = dm.dominance
         out = {}
         order = case.get("order") or CALLS
+        # every method is also reachable through the accessor's call form, dm.dominance("<kind>", **kw): same answers
+
+        class _Spelled:
+            def __getattr__(self, name):
+                def f(*a, **kw):
+                    if case.get("call_form", {}).get(name):
+                        import inspect
+                        names = [n for n in inspect.signature(getattr(acc0, name)).parameters]
+                        kw = dict(kw, **dict(zip(names, a)))      # the call form takes keywords only
+                        return acc0(name, **kw)
+                    return getattr(acc0, name)(*a, **kw)
+                return f
+        acc = _Spelled()
         for name in order:
             if name == "bt":
                 out[name] = acc.bt().to_numpy().tolist()
@@ -183,6 +196,8 @@ def gen_cases(ctx):
         ctx.rng.shuffle(order)
         c["order"] = order
         c["kind"] = "rand"
+        c["call_form"] = {k: ctx.rng.random() < 0.4 for k in ("bt", "eq", "dominance", "dominated", "dominators_of",
+                                                               "has_loops", "compare")}
         t = ctx.rng.random()
         if t < 0.2:
             # label kinds: integers (a shuffled 0..n-1, so that labels and positions disagree; or unrelated integers),
